@@ -421,6 +421,12 @@ func agentsCmd(out *cq.Out, seed uint64, tier string) {
 			// a batch: increasing versions, as a batcher emits them
 			size := 1 + rng.Intn(6)
 			start := rng.Intn(total - 1)
+			switch c % 8 {
+			case 1:
+				start = 0 // the first batch of the log
+			case 5:
+				start = total - 1 // the batch's first snapshot is the log's newest version
+			}
 			var batch []*protocol.SignedSnapshot
 			for v := start; v < total && len(batch) < size; v += 1 + rng.Intn(3) {
 				batch = append(batch, cloneSigned(signed[v]))
